@@ -427,3 +427,4 @@ not_reproduced()
 # level text addendum (cases added after the seeded-change rounds)
 LEVEL_TEXT = LEVEL_TEXT + ' Also: firstlast_valid advanced together with a second generator of the same object, splicing amplitudes collected before use.'
 LEVEL_TEXT = LEVEL_TEXT + ' Round 6: slice_array along every axis (negative ones included) of 1-D to 3-D arrays, tscale asked twice with different rates.'
+LEVEL_TEXT = LEVEL_TEXT + ' Round 7: odd overlaps - refused, or else the valid ranges still tile.'
